@@ -58,6 +58,7 @@ def rules(ctx, P, L, exc, suffix=''):
     ctx.rule('C06.8', 'message kinds: every msg_type a sender stores has a case in the dispatch switch; the name table covers every kind; every queue allocation is sizeof(header) + payload')
     ctx.rule('C06.10', 'the ring never reports a full queue as empty and never hands out bytes of a message that was not popped: on every path of the ring allocator to a non-NULL return the next write index stays strictly below the read index (size + 4 < tail) or inside the ring with room for a wrap marker (size + 8 <= ring size)')
     ctx.rule('C06.11', 'nothing accepted is abandoned: the consumer leaves its drain loop only on an empty queue and examines `quit` only in the outer loop')
+    ctx.rule('C06.12', 'same bytes as the synchronous call: where the synchronous entry derives the payload length from the text (strlen) instead of the caller\'s data_size, the threaded entry that queues the same call does so too before it copies the payload into the queue')
     ctx.rule('C06.9', 'flush tickets: flush_send_id is stored only under the message lock, flush_processed_id only under the process lock (or before the thread starts)')
 
     fns = P.fns_in(TW)
@@ -402,3 +403,46 @@ def rules(ctx, P, L, exc, suffix=''):
     r15(ctx, P, 'C06.10')
     from .c07 import drain_rule
     drain_rule(ctx, P, 'C06.11')
+    size_agreement(ctx, P, 'C06.12')
+
+
+def size_agreement(ctx, P, rule):
+    STRLEN = ('strlen', '__builtin_strlen')
+    n = 0
+    for tw in P.fns_in(TW):
+        if not tw.api or not tw.name.startswith('jls_twr_'):
+            continue
+        sync = P.functions.get('jls_wr_' + tw.name[len('jls_twr_'):])
+        if sync is None:
+            continue
+        sends = [c for c in tw.calls() if c.callee in ('msg_send', 'msg_send_inner')]
+        if not sends:
+            continue
+        # does the synchronous sibling take the length of one of its pointer parameters from strlen?
+        sparams = {p['name'] for p in sync.params if p.get('t', '').startswith('p:')}
+        uses = [c for c in sync.calls(STRLEN) if any(nd.get('op') == 'ref' and nd.get('name') in sparams for nd in walk(c.args[0]))]
+        if not uses:
+            continue
+        n += 1
+        ctx.saw(tw, 1)
+        tparams = {p['name'] for p in tw.params if p.get('t', '').startswith('p:')}
+        mine = [c for c in tw.calls(STRLEN) if any(nd.get('op') == 'ref' and nd.get('name') in tparams for nd in walk(c.args[0]))]
+        # or through a helper of the same unit that measures the pointer it is given
+        for c in tw.calls():
+            g = P.functions.get(c.callee)
+            if g is None or g.file != tw.file:
+                continue
+            for i_, a in enumerate(c.args):
+                if i_ < len(g.params) and any(nd.get('op') == 'ref' and nd.get('name') in tparams for nd in walk(a)):
+                    if any(any(nd.get('op') == 'ref' and nd.get('name') == g.params[i_]['name'] for nd in walk(c2.args[0])) for c2 in g.calls(STRLEN)):
+                        mine.append(c)
+        ok = bool(mine) and all(any(ev_dominates(m, sd) or _may_precede(tw, m, sd) for m in mine) for sd in sends)
+        ctx.ob(rule, ok, tw.name, 'payload length for text storage types', sends[0].where(),
+               'length taken from the text before the copy, as %s does' % sync.name if ok else
+               '%s stores strlen(data) + 1 bytes for STRING/JSON and ignores data_size (documented as 0 / ignored), but %s copies data_size bytes into the queue: the writer thread then measures and stores whatever follows in the ring' % (sync.name, tw.name))
+    ctx.floor('threaded entries whose synchronous sibling measures text', n, 2)
+
+
+def _may_precede(fn, a, b):
+    w = find_path(fn, a, lambda ev, facts: 'target' if ev is b else None, refine=False)
+    return w is not None
